@@ -159,9 +159,17 @@ class ConnNative(Native):
                 st.perms.append(("db", self.cid))
             return [(OK, st, CursorNative(self, info, ev))]
         if name == "commit":
+            out = []
+            if getattr(eng.reg, "sql_commit_faults", False):
+                # a commit can fail (database is locked / I/O error): nothing is committed, the pending statements stay pending
+                sf = st.fork()
+                sf.events.append({"ev": "commit-failed", "conn": self.cid})
+                sf.trail.append("commit=fault")
+                out.append((RAISE, sf, ExcVal("OperationalError")))
             st.events.append({"ev": "commit", "conn": self.cid})
             st.perms[:] = [p for p in st.perms if p != ("db", self.cid)]
-            return [(OK, st, NONE)]
+            out.append((OK, st, NONE))
+            return out
         if name == "rollback":
             st.events.append({"ev": "rollback", "conn": self.cid})
             st.perms[:] = [p for p in st.perms if p != ("db", self.cid)]
